@@ -114,7 +114,7 @@ def effective_guards(stmt, stop=None):
     cur = stmt
     while True:
         p = getattr(cur, "_parent", None)
-        if p is None or p is stop:
+        if p is None:
             break
         for field in ("body", "orelse", "finalbody"):
             blk = getattr(p, field, None)
@@ -129,6 +129,8 @@ def effective_guards(stmt, stop=None):
                             out.append((x.test, False, x))
                         elif else_exits and not body_exits:
                             out.append((x.test, True, x))
+        if p is stop:
+            break
         if isinstance(p, ast.If):
             if any(x is cur for x in p.body):
                 out.append((p.test, True, p))
